@@ -114,3 +114,21 @@ Proof.
   intros [Hc [Hl [_ [Hn [Hnum [Hj _]]]]]]. unfold basic_view, c04_proj. cbn.
   rewrite Hc, Hl, Hnum, Hj. reflexivity.
 Qed.
+
+(* ---- the concrete view: RulesView.view_field, a decoder of the option trees ------------ *)
+From J5V.model Require Import RulesView.
+From J5V.proofs Require Import RulesViewProofs.
+
+Theorem c04_text_concrete env imp D :
+  wf_dfile imp D ->
+  exists D',
+    parse_file_tokens imp (print_file_tokens (to_symtab (dfile_symtab imp D)) D) = Some D' /\
+    forall k c n o body,
+      In (DMsg k c n o body) (d_body D) -> in_print_order body ->
+      exists k' o' body',
+        In (DMsg k' c n o' body') (d_body D') /\
+        read_object env (map view_field (body_fields body')) = read_object env (map view_field (body_fields body)).
+Proof.
+  apply (c04_text_composed view_field).
+  intros f f' H. rewrite (view_field_content f f' H). reflexivity.
+Qed.
